@@ -696,7 +696,10 @@ func (s *Session) parseArgs(arg string) (args map[string]string, ok bool) {
 }
 
 func (s *Session) reset() {
-	s.enterState(READY)
+	if s.state != GREET {
+		// RSET before HELO/EHLO must not skip the greeting.
+		s.enterState(READY)
+	}
 	s.from = nil
 	s.recipients = nil
 }
